@@ -10,7 +10,7 @@ import (
 )
 
 const (
-	pathAlpha  = "abz09-._~!$'()*,;:@"
+	pathAlpha  = "abz09-._~!$'()*,;:@|^"
 	queryAlpha = "abz09-._~!$'()*,;:@/?=&+"
 )
 
@@ -20,7 +20,10 @@ func genPath(c *sim.Case, label string) string {
 	var sb strings.Builder
 	for i := 0; i < n; i++ {
 		sb.WriteByte('/')
-		switch sim.Weighted(c, label+".segkind", 6, 2, 1) {
+		switch sim.Weighted(c, label+".segkind", 12, 4, 2, 1) {
+		case 3:
+			// raw non-ASCII / characters a non-browser client may send unescaped
+			sb.WriteString(sim.PickStr(c, label+".raw", "café", "日本", "a b", "x{y}", "q\"r", "<i>"))
 		case 0:
 			sb.WriteString(c.Str(label+".seg", "abcxyz019-_", 1, 6))
 		case 1:
@@ -65,7 +68,14 @@ func genTarget(c *sim.Case, label string) string {
 	return p
 }
 
-func hasReserved(s string) bool { return strings.ContainsAny(s, "!$'()*,;:@%=&+?~") }
+func hasReserved(s string) bool {
+	for _, r := range s {
+		if r > 127 || strings.ContainsRune("!$'()*,;:@%=&+?~|^{}\"<> ", r) {
+			return true
+		}
+	}
+	return false
+}
 
 func pfx(c *sim.Case, label string) string {
 	switch sim.Weighted(c, label, 3, 2, 1) {
